@@ -241,15 +241,17 @@ PROPS = {
         ],
     ),
     "C12": dict(
-        pkg="c12", level="fault_enumeration",
+        pkg="c12", level="fault_enumeration", crash_is_violation=True,
         technique="model-based histories of runs with a crash or fault injected at a drawn store operation (rapid; wrapper stores that kill the 'process'), oracle = delivery/log/saved-offset invariants across restarts",
         level_text="The deciding step is the placement of a crash (before/after) or a failure at any individual store operation of a run - Append, Read, stream row, SaveOffset, LoadOffset - in generated histories of publishes, SubscribeWithReplay calls and restarts on all three stores, including publishes issued from inside a running SubscribeWithReplay; deliveries over all runs are compared with the persisted log and the observed SaveOffset calls.",
-        level_note="After a crash nothing reaches the stores and later deliveries of that run are ignored (the bus object keeps running, the process is considered dead). Durable-streams runs use one event per chunk so that synthetic event offsets are true resume points (the other shapes are C10's known finding). Other subscribers never re-publish the subscribed types.",
+        level_note="After a crash nothing reaches the stores and later deliveries of that run are ignored (the bus object keeps running, the process is considered dead). Durable-streams runs use one event per chunk so that synthetic event offsets are true resume points (the other shapes are C10's known finding). Other subscribers never re-publish the subscribed types. Concurrent publishers run under the cooperative scheduler (switch points: between a publish's append and its dispatch, at handlers, before SaveOffset) with the process dying at a drawn step.",
         assumptions=COMMON_ASSUME + ["the wrapper stores see every store operation of the bus", "a crash is modelled as: no further store operation takes effect"],
         tests=[
             dict(name="TestResumeMemory", quick=4000, thorough=40000, shards_thorough=10, shrinktime="20s"),
             dict(name="TestResumeSQLite", quick=120, thorough=1500, shards_thorough=4, shrinktime="20s"),
             dict(name="TestResumeDurable", quick=300, thorough=4000, shards_thorough=2, shrinktime="20s"),
+            dict(name="TestScheduledPublishers", quick=3000, thorough=40000, shards_thorough=4, shrinktime="20s"),
+            dict(name="TestFreePublishers", quick=300, thorough=3000, shards_thorough=4, race=True, shrinktime="5s"),
             dict(name="TestKnownProbes", quick=1, thorough=1, shards_thorough=1, rapid=False),
         ],
     ),
